@@ -978,3 +978,13 @@ pub mod verif_hooks_stage2 {
         MULTIEVAL_THRESHOLD
     }
 }
+
+/// Verification hooks (only with `--cfg yamaquasi_verif`): the factor-extraction step shared by both stages.
+#[cfg(yamaquasi_verif)]
+pub mod verif_hooks_stage2b {
+    use super::*;
+
+    pub fn vh_check_gcd_factors(n: &Uint, factors: &mut Vec<Uint>, nred: &mut Uint, values: &mut Vec<MInt>) -> bool {
+        check_gcd_factors(n, factors, nred, values, None)
+    }
+}
